@@ -283,6 +283,16 @@ pub const STMT_CORE: &[&str] = &[
     "do end;",
     "if a then f(); end",
     "function f() return a; end",
+    // conditions / headers that contain containers (tables, functions) — a header that hangs re-formats them
+    "while f({ a = 1 }) and g do\n\tx()\nend",
+    "while a == { 1, 2 } or b do x() end",
+    "while f(function() return 1 end) do x() end",
+    "if f({ a = 1 }) and g then x() end",
+    "if a then x() elseif f({ 1 }) or g then y() end",
+    "repeat x() until f({ a = 1 }) or h",
+    "for i = f({ 1 }), g(function() return 2 end) do x() end",
+    "for k, v in pairs({ a = 1 }), g do x() end",
+    "return f({ a = 1 }) and g, function() return 2 end",
 ];
 
 pub const STMT_L52: &[&str] = &["goto l", "::l::", "local f = function() goto l end", "if a then goto l end", "function f() goto l end", "while a do goto l end", "do goto l ::l:: end", "local s = \"a\\z\n   b\"", "local s = \"\\x41\""];
